@@ -66,13 +66,48 @@ def solve(fvals, ys):
     for j in range(k):
         pn = perm_abs(replace_col(Mabs, j, rhsabs))
         err.append(K * (pn / fd + abs(float(coef[j])) * pd / fd) if fd > 0 else math.inf)
-    return {"coef": coef, "err": err, "d": d, "M": M, "rhs": rhs, "Mabs": Mabs}
+    sol = {"coef": coef, "err": err, "d": d, "M": M, "rhs": rhs, "Mabs": Mabs, "rhsabs": rhsabs}
+    sol["cond"] = conditioning(sol)
+    return sol
 
 
-def well_conditioned(sol, j, margin=1e-7):
-    """may relative 1e-6 be demanded of coefficient j?"""
-    c = abs(float(sol["coef"][j]))
-    return c > 0 and sol["err"][j] <= margin * c
+# Conditioning, defined on the exact (Fraction) normal equations only - nothing of the
+# implementation's closed form enters.  With s_j = sqrt(M_jj) the system is put in the scaled form
+# Ms z = bs  (Ms_ij = M_ij/(s_i s_j), z_j = a_j s_j, bs_i = b_i/s_i: the Gram matrix of the
+# normalised basis functions).  K = cond_inf(Ms) * max(1, max_i(sum|y f_i|/s_i) / max_i|bs_i|): the
+# condition number of the scaled normal matrix times the cancellation of the right-hand side.  Any
+# solver that forms these inner products in binary64 has relative error ~ c*n*eps*K of the scaled
+# solution; for n <= 200, K <= KMAX = 1e6 gives n*eps*K <= 2.3e-8, so relative 1e-6 is achievable
+# with a factor 45 to spare.  "relative 1e-6" is read normwise on the scaled solution:
+# max_j |a_j - a^_j| s_j <= 1e-6 max_j |a_j| s_j.
+KMAX = 1e6
+
+
+def conditioning(sol):
+    M, rhs, k = sol["M"], sol["rhs"], len(sol["coef"])
+    d = sol["d"]
+    s = [math.sqrt(float(M[j][j])) for j in range(k)]
+    if min(s) == 0.0:
+        return None
+    def minor(i, j):
+        return [[M[r][c] for c in range(k) if c != j] for r in range(k) if r != i]
+    if k == 1:
+        inv = [[1 / M[0][0]]]
+    else:
+        inv = [[((-1) ** (i + j)) * det(minor(j, i)) / d for j in range(k)] for i in range(k)]
+    n_ms = max(sum(abs(float(M[i][j])) / (s[i] * s[j]) for j in range(k)) for i in range(k))
+    n_inv = max(sum(abs(float(inv[i][j])) * (s[i] * s[j]) for j in range(k)) for i in range(k))
+    z = [abs(float(sol["coef"][j])) * s[j] for j in range(k)]
+    bs = max(abs(float(rhs[i])) / s[i] for i in range(k))
+    ba = max(sol["rhsabs"][i] / s[i] for i in range(k))
+    rho = ba / bs if bs > 0 else math.inf
+    return {"K": n_ms * n_inv * max(1.0, rho), "s": s, "zmax": max(z)}
+
+
+def well_conditioned(sol):
+    """is relative 1e-6 (normwise, scaled) demanded of this data set?"""
+    c = sol.get("cond")
+    return c is not None and c["K"] <= KMAX and c["zmax"] > 0
 
 
 def correlation(xs, ys):
@@ -139,7 +174,7 @@ def float_correlation(xs, ys):
     if vx < 0 or vy < 0: return ("exc", "ValueError")
     den = math.sqrt(vx) * math.sqrt(vy)
     if den == 0: return ("exc", "ZeroDivisionError")
-    return ("ok", (n * u - p * t) / den)
+    return ("ok", max(-1.0, min(1.0, (n * u - p * t) / den)))
 
 
 def exact_linear_det(xs):
